@@ -14,7 +14,7 @@ from ..core import driver
 
 def _mk(case, ctx):
     """URI of the cooler of the case: at the file root, or in the group case["at"] next to a decoy with other content."""
-    return gen.place(ctx.path(), case["table"], case["px"], "symm", at=case.get("at"))
+    return gen.place(ctx.path(), case["table"], case["px"], "symm", at=case.get("at"), prior=case.get("prior", False))
 
 
 def _kwargs(o, chunk):
